@@ -27,10 +27,11 @@ class Case:
     oracle : callable(impl_answer) -> None | str  (property evaluated on the implementation alone)
     stream : generator stream name (for the distribution report)
     """
-    __slots__ = ('req', 'model', 'spec', 'oracle', 'stream', 'expect')
+    __slots__ = ('req', 'model', 'spec', 'oracle', 'stream', 'expect', 'panic_ok')
 
-    def __init__(self, req, stream, model='same', spec=None, oracle=None, expect=None):
-        self.req, self.stream, self.spec, self.oracle, self.expect = req, stream, spec, oracle, expect
+    def __init__(self, req, stream, model='same', spec=None, oracle=None, expect=None, panic_ok=False):
+        # panic_ok: a panic that the model predicts as well is not a violation (the property has no totality clause)
+        self.req, self.stream, self.spec, self.oracle, self.expect, self.panic_ok = req, stream, spec, oracle, expect, panic_ok
         self.model = req if model == 'same' else model
 
 
@@ -62,13 +63,13 @@ def evaluate(ctx, prop, cases):
                 nontrivial.add(c.req)
                 st['nontrivial'] += 1
         why = None
-        if a in ('PANIC', 'CRASH'):
+        if a in ('PANIC', 'CRASH') and not (c.panic_ok and model.get(i) == 'PANIC'):
             why = 'the implementation panicked'
         elif c.expect is not None and a != c.expect:
             why = 'expected answer %r' % c.expect
         elif c.oracle is not None:
             why = c.oracle(a)
-        if why is None and i in spec and spec[i] != a:
+        if why is None and i in spec and spec[i] != 'skip' and spec[i] != a:
             why = 'differs from the rules of chess / reference specification'
         if why is not None:
             st['impl_vs_oracle'] += 1
@@ -119,7 +120,7 @@ def main(argv):
     driver_ok = True
     # ---- 1. tie: build the implementation side and regenerate Gen -----------------------------------------
     try:
-        ctx.stats['build_impl_s'] = round(core.build_impl(), 1)
+        ctx.stats['build_impl_s'] = round(core.build_impl(lichess=prop.get('needs_lichess', False)), 1)
     except Broken as e:
         violations.append({'kind': 'tie', 'theorem': e.what, 'why': 'the harness does not build against the current tree', 'detail': e.detail})
         driver_ok = False
